@@ -110,6 +110,8 @@ pub struct WorkerSummary {
     pub strategies: BTreeMap<String, u64>,
     pub violations: Vec<FoundViolation>,
     pub violating_runs: u64,
+    #[serde(default)]
+    pub known_finding_runs: u64,
     pub samples: Vec<Value>,
     pub fp_xor: u64,
 }
@@ -131,6 +133,7 @@ pub fn worker_main(sc: &dyn Scenario, tier: Tier, verif_seed: u64, start: u64, c
     let mut sigs: Vec<u64> = Vec::with_capacity(count as usize);
     let curfile = std::fs::OpenOptions::new().create(true).write(true).truncate(true).open(format!("{}.cur", prefix)).ok();
     let max_viol = 24;
+    let known: BTreeSet<String> = load_known().into_iter().filter(|k| k.property == sc.id()).map(|k| k.key).collect();
     for index in start..start + count {
         if let Some(f) = &curfile {
             use std::os::unix::fs::FileExt;
@@ -168,7 +171,12 @@ pub fn worker_main(sc: &dyn Scenario, tier: Tier, verif_seed: u64, start: u64, c
             }
         }
         if !out.violations.is_empty() {
-            sum.violating_runs += 1;
+            // listed known findings are recorded (once per key) but do not stop the batch early
+            if out.violations.iter().any(|v| !known.contains(&v.key)) {
+                sum.violating_runs += 1;
+            } else {
+                sum.known_finding_runs += 1;
+            }
             let mut seen = BTreeSet::new();
             for v in out.violations {
                 if seen.insert(v.key.clone()) && sum.violations.iter().filter(|f| f.violation.key == v.key).count() < 2 {
@@ -530,6 +538,7 @@ pub fn check_main(sc: &'static dyn Scenario, o: &CheckOpts) -> i32 {
         agg.stuck += s.stuck;
         agg.faulty_cfg_runs += s.faulty_cfg_runs;
         agg.violating_runs += s.violating_runs;
+        agg.known_finding_runs += s.known_finding_runs;
         agg.fp_xor ^= s.fp_xor;
         for (k, v) in s.faults {
             *agg.faults.entry(k).or_default() += v;
@@ -684,6 +693,7 @@ pub fn check_main(sc: &'static dyn Scenario, o: &CheckOpts) -> i32 {
                 "inconclusive": agg.inconclusive,
                 "stuck_runs": agg.stuck,
                 "violating_runs": agg.violating_runs,
+                "known_finding_runs": agg.known_finding_runs,
                 "known_findings_printed": printed_known.iter().collect::<Vec<_>>(),
                 "reported": reported,
                 "warnings": warnings,
